@@ -468,12 +468,14 @@ def stat_option_cases(ctx):
             return s.w
 
     def real(kind, **kw):
-        x0 = snp.ones((3,))
-        f = loss.SquaredL2Loss(y=x0, A=linop.Identity((3,)))
+        # one dtype throughout (the checks run with 64-bit mode on; operators default to float32 input)
+        x0 = snp.ones((3,), dtype=np.float32)
+        I = linop.Identity((3,), input_dtype=np.float32)
+        f = loss.SquaredL2Loss(y=x0, A=I)
         g = functional.L1Norm()
         if kind == "PGM":
             return PGM(f=f, g=g, L0=2.0, x0=x0, **kw)
-        return LinearizedADMM(f=g, g=g, C=linop.Identity((3,)), mu=0.5, nu=1.0, x0=x0, **kw)
+        return LinearizedADMM(f=g, g=g, C=I, mu=0.5, nu=1.0, x0=x0, **kw)
 
     for t in range(ctx.n(12, 120)):
         nfield = ctx.rng.choice([1, 2, 3, 5])
